@@ -232,3 +232,29 @@ pub fn relation_family() -> ListSpace {
         wide: false,
     }
 }
+
+/// MS-H huge-count family (structure-only checks: layout, length, determinism): N classes with one entry each
+/// for N around 64 KiB / 28 bytes per class entry, and one class with M distinct methods
+pub fn huge_family(giant_methods: usize) -> ListSpace {
+    let with_giant_class = giant_methods > 0;
+    let mut files: Vec<(Vec<Line>, Term)> = Vec::new();
+    for n in [147usize, 300, 2340, 2341, 4682, 9363] {
+        let mut f = Vec::with_capacity(2 * n);
+        for i in 0..n {
+            f.push(class(leak(&format!("o.C{}", i)), leak(&format!("c{:05}", perm(n, i, 7, 1)))));
+            f.push(method(None, None, "p", "", Orig::None, "m"));
+        }
+        files.push((f, Term::Lf));
+    }
+    if with_giant_class {
+        // ~ 2^32 pairs of distinct methods: a 32-bit fingerprint used as identity collides somewhere
+        let m = giant_methods;
+        let mut f = Vec::with_capacity(m + 1);
+        f.push(class("o.Giant", "g"));
+        for i in 0..m {
+            f.push(method(None, None, leak(&format!("orig{}", i)), "", Orig::None, leak(&format!("m{}", i))));
+        }
+        files.push((f, Term::Lf));
+    }
+    ListSpace { name: "MS-H huge-count family".into(), note: "N in {147, 300, 2340, 2341, 4682, 9363} classes with one entry each (class table crossing 4 KiB and 64 KiB block sizes); optionally one class with 150000 (quick) / 400000 (thorough) distinct methods".into(), files, wide: false }
+}
